@@ -69,9 +69,9 @@ class GetAncestorsOf(Contract):
         g = args["self"]
         if not isinstance(result, Coll):
             return z3.BoolVal(False)
-        A = anc_spec(ex, old["_E"], self.Z(args))
+        A = anc_spec(ex, old["@E"], self.Z(args))
         # ghost lemma: leastness instance for the returned set (valid for the least fix-point)
-        st.assume(ex.lib.theory(ex).induct_backward(old["_E"], mem_or_empty(result)))
+        st.assume(ex.lib.theory(ex).induct_backward(old["@E"], mem_or_empty(result)))
         a = fresh("a", Atom)
         return z3.And(z3.ForAll([a], mem_or_empty(result)[a] == A[a]), graph_unchanged(g, old))
 
@@ -83,7 +83,7 @@ class GetAncestorsOf(Contract):
     # loop 1: worklist
     def inv1(self, ex, st, args, old, ghost):
         g = args["self"]
-        E = g.fields["_E"]
+        E = g.fields["@E"]
         Z = self.Z(args)
         AL = mem_or_empty(st.env["ancestors_list"])
         NL = mem_or_empty(st.env["nodes_list"])
@@ -206,7 +206,7 @@ class ActiveTrailNodes(Contract):
         return graph_snapshot(args["self"])
 
     def expected(self, ex, args, old, s):
-        th = self.theory(ex, args, old["_E"])
+        th = self.theory(ex, args, old["@E"])
         D = th.dconn_set(s)
         n = fresh("n", Atom)
         il = args["include_latents"].z
@@ -220,7 +220,7 @@ class ActiveTrailNodes(Contract):
             return z3.BoolVal(False)
         S = self.starts(args)
         s, n = fresh("s", Atom), fresh("n", Atom)
-        th = self.theory(ex, args, old["_E"])
+        th = self.theory(ex, args, old["@E"])
         il = args["include_latents"].z
         D = lambda s_, n_: z3.And(z3.Not(self.Z(args)[n_]), z3.Or(th.R(s_, n_, UP), th.R(s_, n_, DOWN)),
                                   z3.Or(il, z3.Not(old["latents"][n_])))
@@ -235,7 +235,7 @@ class ActiveTrailNodes(Contract):
         res = st.env["active_trails"]
         done = ghost["done"]
         s, n = fresh("s", Atom), fresh("n", Atom)
-        th = self.theory(ex, args, old["_E"])
+        th = self.theory(ex, args, old["@E"])
         il = args["include_latents"].z
         if res.dom is None:
             dom_ok = z3.ForAll([s], z3.Not(done[s]))
@@ -250,13 +250,13 @@ class ActiveTrailNodes(Contract):
 
     def anc_ok(self, ex, st, args, old):
         a = fresh("a", Atom)
-        th = self.theory(ex, args, old["_E"])
+        th = self.theory(ex, args, old["@E"])
         return z3.ForAll([a], mem_or_empty(st.env["ancestors_list"])[a] == th.A[a])
 
     # loop 1: while visit_list
     def inv1(self, ex, st, args, old, ghost):
         g = args["self"]
-        th = self.theory(ex, args, old["_E"])
+        th = self.theory(ex, args, old["@E"])
         start = z3_of(st.env["start"])
         VL = mem_or_empty(st.env["visit_list"], PairAD)
         TL = mem_or_empty(st.env["traversed_list"], PairAD)
@@ -301,7 +301,7 @@ class GetMarkovBlanket(Contract):
     def post(self, ex, st, args, old, result):
         if not isinstance(result, Coll):
             return z3.BoolVal(False)
-        E, v = old["_E"], args["node"].z
+        E, v = old["@E"], args["node"].z
         x, c = fresh("x", Atom), fresh("c", Atom)
         mem = mem_or_empty(result)
         spec = lambda y: z3.And(y != v, z3.Or(E[y, v], E[v, y], z3.Exists([c], z3.And(E[v, c], E[y, c]))))
@@ -332,7 +332,7 @@ class Moralize(Contract):
     def make_result(self, ex, st, args):
         from vf.pyvc.lib import RelSort
         from vf.pyvc.engine import Obj
-        return Obj("UndirectedGraph", {"_nodes": fresh("mg_nodes", set_sort(Atom)), "_E": fresh("mg_E", RelSort), "_directed": False})
+        return Obj("UndirectedGraph", {"@nodes": fresh("mg_nodes", set_sort(Atom)), "@E": fresh("mg_E", RelSort), "@directed": False})
 
     def spec_edges(self, E, over):
         c = fresh("c", Atom)
@@ -340,20 +340,20 @@ class Moralize(Contract):
 
     def post(self, ex, st, args, old, result):
         from vf.pyvc.engine import Obj
-        if not isinstance(result, Obj) or result.fields.get("_directed", True):
+        if not isinstance(result, Obj) or result.fields.get("@directed", True):
             return z3.BoolVal(False)
         a, b = fresh("a", Atom), fresh("b", Atom)
-        f = self.spec_edges(old["_E"], old["_nodes"])
-        return z3.And(z3.ForAll([a], result.fields["_nodes"][a] == old["_nodes"][a]),
-                      z3.ForAll([a, b], result.fields["_E"][a, b] == f(a, b)),
+        f = self.spec_edges(old["@E"], old["@nodes"])
+        return z3.And(z3.ForAll([a], result.fields["@nodes"][a] == old["@nodes"][a]),
+                      z3.ForAll([a, b], result.fields["@E"][a, b] == f(a, b)),
                       graph_unchanged(args["self"], old), z3.BoolVal(result is not args["self"]))
 
     def inv0(self, ex, st, args, old, ghost):
         mg = st.env["moral_graph"]
         a, b = fresh("a", Atom), fresh("b", Atom)
-        f = self.spec_edges(old["_E"], ghost["done"])
-        return z3.And(z3.ForAll([a], mg.fields["_nodes"][a] == old["_nodes"][a]),
-                      z3.ForAll([a, b], mg.fields["_E"][a, b] == f(a, b)),
+        f = self.spec_edges(old["@E"], ghost["done"])
+        return z3.And(z3.ForAll([a], mg.fields["@nodes"][a] == old["@nodes"][a]),
+                      z3.ForAll([a, b], mg.fields["@E"][a, b] == f(a, b)),
                       graph_unchanged(args["self"], old))
 
     invariants = property(lambda self: {0: self.inv0})
@@ -382,7 +382,7 @@ class IsDConnected(Contract):
         if not isinstance(result, Scalar):
             return z3.BoolVal(False)
         atn = REGISTRY_ATN
-        th = atn.theory(ex, {"observed": args["observed"]}, old["_E"])
+        th = atn.theory(ex, {"observed": args["observed"]}, old["@E"])
         s, e = args["start"].z, args["end"].z
         # is_dconnected goes through active_trail_nodes(include_latents=False): a latent end node is never reported
         return result.z == z3.And(z3.Not(th.Z[e]), z3.Or(th.R(s, e, UP), th.R(s, e, DOWN)), z3.Not(old["latents"][e]))
@@ -398,7 +398,7 @@ class GetAncestralGraph(Contract):
     def make_result(self, ex, st, args):
         from vf.pyvc.lib import RelSort
         from vf.pyvc.engine import Obj
-        return Obj("DAG", {"_nodes": fresh("ag_nodes", set_sort(Atom)), "_E": fresh("ag_E", RelSort), "_directed": True,
+        return Obj("DAG", {"@nodes": fresh("ag_nodes", set_sort(Atom)), "@E": fresh("ag_E", RelSort), "@directed": True,
                            "latents": Coll("set", Atom, empty_set(Atom))})
 
     def variants(self, ex):
@@ -416,10 +416,10 @@ class GetAncestralGraph(Contract):
         from vf.pyvc.engine import Obj
         if not isinstance(result, Obj):
             return z3.BoolVal(False)
-        A = anc_spec(ex, old["_E"], mem_or_empty(args["nodes"]))
+        A = anc_spec(ex, old["@E"], mem_or_empty(args["nodes"]))
         a, b = fresh("a", Atom), fresh("b", Atom)
-        return z3.And(z3.ForAll([a], result.fields["_nodes"][a] == A[a]),
-                      z3.ForAll([a, b], result.fields["_E"][a, b] == z3.And(old["_E"][a, b], A[a], A[b])),
+        return z3.And(z3.ForAll([a], result.fields["@nodes"][a] == A[a]),
+                      z3.ForAll([a, b], result.fields["@E"][a, b] == z3.And(old["@E"][a, b], A[a], A[b])),
                       graph_unchanged(args["self"], old))
 
 
@@ -450,7 +450,7 @@ class LocalIndependencies(Contract):
             return z3.BoolVal(False)
         lst = result.fields["independencies"]
         mem = lst.mem if lst.mem is not None else empty_set(IA)
-        E, Nn, v = old["_E"], old["_nodes"], args["variables"].z
+        E, Nn, v = old["@E"], old["@nodes"], args["variables"].z
         P = ex.lib.theory(ex).path(E)
         x, r = fresh("x", Atom), fresh("r", IA)
         nd_minus_pa = lambda y: z3.And(Nn[y], y != v, z3.Not(P(v, y)), z3.Not(E[y, v]))
@@ -485,7 +485,7 @@ class MinimalDSeparator(Contract):
         return graph_snapshot(args["self"])
 
     def raises(self, ex, st, args):
-        E, s, e = args["self"].fields["_E"], args["start"].z, args["end"].z
+        E, s, e = args["self"].fields["@E"], args["start"].z, args["end"].z
         return {"ValueError": z3.Or(E[s, e], E[e, s])}
 
     def on_raise(self, ex, st, args, old, exc):
@@ -493,15 +493,15 @@ class MinimalDSeparator(Contract):
 
     def an_E(self, ex, old, args):
         s, e = args["start"].z, args["end"].z
-        A = anc_spec(ex, old["_E"], z3.Store(z3.Store(empty_set(Atom), s, True), e, True))
+        A = anc_spec(ex, old["@E"], z3.Store(z3.Store(empty_set(Atom), s, True), e, True))
         a, b = fresh("a", Atom), fresh("b", Atom)
-        return A, z3.Lambda([a, b], z3.And(old["_E"][a, b], A[a], A[b]))
+        return A, z3.Lambda([a, b], z3.And(old["@E"][a, b], A[a], A[b]))
 
     def sep_ok(self, ex, st, args, old, mem):
         """mem holds no latent / endpoint and d-separates start,end in the ancestral graph"""
         an = st.env["an_graph"]
         s, e = args["start"].z, args["end"].z
-        th = REGISTRY_ATN.theory(ex, {"observed": Coll("set", Atom, mem)}, an.fields["_E"])
+        th = REGISTRY_ATN.theory(ex, {"observed": Coll("set", Atom, mem)}, an.fields["@E"])
         x = fresh("x", Atom)
         return z3.And(z3.ForAll([x], z3.Implies(mem[x], z3.And(z3.Not(old["latents"][x]), x != s, x != e))),
                       z3.Not(z3.And(z3.Not(th.Z[e]), z3.Or(th.R(s, e, UP), th.R(s, e, DOWN)))))
@@ -520,7 +520,7 @@ class MinimalDSeparator(Contract):
         an = st.env["an_graph"]
         A, EA = self.an_E(ex, old, args)
         a, b = fresh("a", Atom), fresh("b", Atom)
-        return z3.And(z3.ForAll([a], an.fields["_nodes"][a] == A[a]), z3.ForAll([a, b], an.fields["_E"][a, b] == EA[a, b]),
+        return z3.And(z3.ForAll([a], an.fields["@nodes"][a] == A[a]), z3.ForAll([a, b], an.fields["@E"][a, b] == EA[a, b]),
                       z3.ForAll([a], z3.Not(an.fields["latents"].mem[a])))
 
     def inv0(self, ex, st, args, old, ghost):
